@@ -220,25 +220,29 @@ def expected_sum(col, cls):
 def check_sum(ctx, rule, fn, what, value, spec_cols, where):
     """value's linear form must be sum over frames of spec_cols[frame] in both classification modes."""
     for cls in (False, True):
-        problems = []
-        flags = {CLS_FLAG: cls}
-        lin = am.linear(value, flags, problems)
-        atoms = am.gsum_atoms(lin)
-        got = sorted((fr, col, s) for fr, col, s, keys in atoms)
-        frames = ["R", "N"] if cls else ["R", "U", "N"]
-        want = sorted((fr, spec_cols[fr], 1) for fr in frames)
-        keys_ok = all(keys == ("param", "aggregate") for _, _, _, keys in atoms)
-        mode = "classification level" if cls else "state/county/district level"
-        ok = got == want and keys_ok
-        ctx.ob(rule, f"{fn.qualname}|{what} ({mode})", ok, where,
-               f"{what} = " + " + ".join(f"S_{fr}({c})" for fr, c, _ in want) + f" per group ({mode})" if ok
-               else f"{what} is " + " ".join(("+" if s > 0 else "-") + f" S_{fr}({c})" for fr, c, s in got) +
-                    f" but must be " + " + ".join(f"S_{fr}({c})" for fr, c, _ in want) + f" ({mode})"
-                    + ("" if keys_ok else "; grouped by other keys than the aggregate list"))
-        nan = [p for p in problems]
-        ctx.ob(rule + ".nan", f"{fn.qualname}|{what} fill-before-add ({mode})", not nan, where,
-               "every operand that can be missing after an outer join is filled with 0 before the addition" if not nan
-               else f"{len(nan)} operand(s) can be NaN when a group exists on one side only ({nan[0][0]}): the group's votes are lost")
+        def one(fl):
+            problems = []
+            return am.linear(value, fl, problems), problems
+        # a condition the configuration does not decide (a defensive `if column in frame.columns`): the table has to be the documented
+        # sum on either path, each judged on its own
+        for extra, (lin, problems) in am.each_valuation(one, {CLS_FLAG: cls}):
+            wh = am.when(extra)
+            atoms = am.gsum_atoms(lin)
+            got = sorted((fr, col, s) for fr, col, s, keys in atoms)
+            frames = ["R", "N"] if cls else ["R", "U", "N"]
+            want = sorted((fr, spec_cols[fr], 1) for fr in frames)
+            keys_ok = all(keys == ("param", "aggregate") for _, _, _, keys in atoms)
+            mode = "classification level" if cls else "state/county/district level"
+            ok = got == want and keys_ok
+            ctx.ob(rule, f"{fn.qualname}|{what} ({mode}){wh}", ok, where,
+                   f"{what} = " + " + ".join(f"S_{fr}({c})" for fr, c, _ in want) + f" per group ({mode})" if ok
+                   else f"{what} is " + " ".join(("+" if s > 0 else "-") + f" S_{fr}({c})" for fr, c, s in got) +
+                        f" but must be " + " + ".join(f"S_{fr}({c})" for fr, c, _ in want) + f" ({mode}){wh}"
+                        + ("" if keys_ok else "; grouped by other keys than the aggregate list"))
+            nan = [p for p in problems]
+            ctx.ob(rule + ".nan", f"{fn.qualname}|{what} fill-before-add ({mode}){wh}", not nan, where,
+                   "every operand that can be missing after an outer join is filled with 0 before the addition" if not nan
+                   else f"{len(nan)} operand(s) can be NaN when a group exists on one side only ({nan[0][0]}): the group's votes are lost")
 
 
 def _aggregates(ctx):
